@@ -262,31 +262,58 @@ def _transform_overlay(transformer) -> Dict[str, str]:
     return out
 
 
-WHOLE_TREE = {
-    "whole-tree-reformat": _reformat_overlay,
-    "whole-tree-rename-locals": _alpha_overlay,
-    "whole-tree-swap-if-else": lambda: _transform_overlay(Swap),
-    "whole-tree-return-through-local": lambda: _transform_overlay(RetVar),
-    "whole-tree-else-after-jump": lambda: _transform_overlay(ElseAfterJump),
-    "whole-tree-split-isinstance": lambda: _transform_overlay(SplitIsinstance),
-    "whole-tree-comprehension-to-loop": lambda: _transform_overlay(CompToLoop),
-    "whole-tree-conditional-expression-to-if": lambda: _transform_overlay(IfExpToIf),
+class _Identity(ast.NodeTransformer):
+    pass
+
+
+# name -> AST transformer class (re-printing from the syntax tree is the identity transformer)
+TRANSFORMERS = {
+    "whole-tree-reformat": _Identity,
+    "whole-tree-rename-locals": Renamer,
+    "whole-tree-swap-if-else": Swap,
+    "whole-tree-return-through-local": RetVar,
+    "whole-tree-else-after-jump": ElseAfterJump,
+    "whole-tree-split-isinstance": SplitIsinstance,
+    "whole-tree-comprehension-to-loop": CompToLoop,
+    "whole-tree-conditional-expression-to-if": IfExpToIf,
 }
+WHOLE_TREE = dict(TRANSFORMERS)
+
+
+def _overlay_for(which: str) -> Dict[str, str]:
+    """`which` names one transformer, or two joined by '+' (applied in that order)"""
+    chain = [TRANSFORMERS[w] for w in which.split("+")]
+    out = {}
+    for dp, _dn, fn in os.walk(os.path.join(SRC, "krrood")):
+        for f in fn:
+            if f.endswith(".py"):
+                p = os.path.join(dp, f)
+                with open(p) as fh:
+                    t = ast.parse(fh.read())
+                for tr in chain:
+                    t = tr().visit(t)
+                    ast.fix_missing_locations(t)
+                out[p] = ast.unparse(t)
+    return out
 
 
 def run_reformat(prop: str, which: str = "whole-tree-reformat") -> Dict:
     base, err0 = failing_keys(prop, None)
-    got, err = failing_keys(prop, WHOLE_TREE[which]())
+    got, err = failing_keys(prop, _overlay_for(which))
     fresh = got - base
     return {"id": which, "prop": prop, "kind": "rewrite", "new_failures": sorted(fresh), "analysis_error": err,
             "result": "silent" if not fresh and not err else "FALSE-ALARM"}
 
 
-def load_cases(prop: Optional[str] = None) -> List[Dict]:
+def load_cases(prop: Optional[str] = None, deep: bool = False) -> List[Dict]:
+    """deep: also every ordered pair of two different whole-tree transformations (thorough tier)"""
     from .cases import CASES
 
     props = sorted({c["prop"] for c in CASES})
-    extra = [dict(prop=q, id=w, kind="reformat") for q in props for w in WHOLE_TREE]
+    names = list(TRANSFORMERS)
+    if deep:
+        names += [f"{a}+{b}" for a in TRANSFORMERS for b in TRANSFORMERS if a != b and "reformat" not in a and "reformat" not in b]
+    extra = [dict(prop=q, id=w, kind="reformat") for q in props for w in names]
     return [c for c in CASES + extra if prop is None or c["prop"] == prop]
 
 
